@@ -204,6 +204,25 @@ def c05():
                     a, b = outcome(o, *pr), outcome(fresh, *pr)
                     if a != b:
                         per_script.setdefault(si, []).append(dict(script=script, upto=step, probe=repr(pr), got=a, fresh_function=b))
+    # linked children: a change on the parent reaches a linked child that is in use even if the parent never was
+    for parent_used in (False, True):
+        par = Ovld(name="par")
+        par.register(fa)
+        child = par.copy(linkback=True)
+        child.register(fc)
+        if parent_used:
+            outcome(par, A())
+        for pr in probes:
+            outcome(child, *pr)
+        par.register(fb)
+        fresh = Ovld(name="par")
+        for g in (fa, fb, fc):
+            fresh.register(g)
+        for pr in probes:
+            n += 1
+            a, b = outcome(child, *pr), outcome(fresh, *pr)
+            if a != b:
+                per_script.setdefault(100 + int(parent_used), []).append(dict(scenario="register on parent of a linked child in use", parent_used=parent_used, probe=repr(pr), got=a, fresh_function=b))
     return n, [dict(name=f"equals_fresh_function_after_changes.script{si}", n_violations=len(v), violations=v[:3]) for si, v in sorted(per_script.items())]
 
 
